@@ -41,6 +41,8 @@ def base_plan(seed: int, depth: int = 1) -> dict:
     # any two file operations"); source-line pre-emption would only multiply equal states
     plan["knobs"]["line_preempt"] = False
     plan["sweep_targets"] = [ph["sessions"][0]["group"] for ph in phases[:-1]]
+    rng = random.Random(seed ^ 0xA17)
+    plan["knobs"]["alt_phases"] = [pi for pi in range(1, len(phases)) if rng.random() < 0.5]
     plan["property"] = "C17"
     return plan
 
